@@ -515,6 +515,8 @@ IDENTITIES = {
     "yrs::block::BlockRange::merge": ("store", {"len": "(other.len + self.len)"}),
     "yrs::state_vector::StateVector::get": ("ret", "0 | HashMap::get(self.0, client_id)"),
     "yrs::block_store::ClientBlockList::clock": ("ret", "0 | Block::next_clock(BlockRef::as_ref(ClientBlockList::last(self)))"),
+    # the length of an item in the unit the caller names, deleted or not (event deltas measure tombstones with it)
+    "yrs::block::Item::content_len": ("ret", "ItemContent::len(self.content, kind)"),
 }
 
 
